@@ -2577,7 +2577,7 @@ main(int argc, char **argv)
 					int    ttl = (int[]){ 1, 2, 3, 8, 15 }[vf_below(&r, 5)];
 					bool   wc  = !vp->single || vf_chance(&r, 1, 3);
 					vf_case_begin(idx, "trunc tran=%s proto=%s end=%s recvmax=%zu ttl=%d ctl=%d", tnames[t], vp->name, endnames[e], rm, ttl, wc);
-					vf_watchdog(180);
+					vf_watchdog(120);
 					open_with_control(&V, vp, t, rm, ttl, wc);
 					long maxoff = truncation_space(&V, &r, idx);
 					long step   = 1;
@@ -2593,7 +2593,7 @@ main(int argc, char **argv)
 						snprintf(pl.mut, sizeof(pl.mut), "trunc");
 						run_session(&V, &pl, &pr, (off % 8) == 3, false);
 						vf_stat("trunc_offsets", 1);
-						vf_watchdog(180);
+						vf_watchdog(120);
 						if (V.wedged) break;
 					}
 					victim_close(&V);
@@ -2620,13 +2620,13 @@ main(int argc, char **argv)
 			int           nsess = vf_tier ? 24 : 16;
 			bool          dribble = rm != (1u << 20) && vf_chance(&r, 1, 4);
 			vf_case_begin(idx, "mut tran=%s proto=%s recvmax=%zu ttl=%d ctl=%d dribble=%d", tnames[t], vp->name, rm, ttl, wc, dribble);
-			vf_watchdog(180);
+			vf_watchdog(120);
 			open_with_control(&V, vp, t, rm, ttl, wc);
 			if (dribble) vf_io_plan(VF_IO_FULL, 0, VF_IO_RANDOM, 1 + vf_below(&r, 12), vf_rand(&r));
 			for (int j = 0; j < nsess; j++) {
 				pick_plan(&V, &pl, &r);
 				run_session(&V, &pl, &r, vf_chance(&r, 1, 3), vf_chance(&r, 1, vf_tier ? 24 : 40) || getenv("C11_SPIN_ALL") != NULL);
-				vf_watchdog(180);
+				vf_watchdog(120);
 				if (V.wedged) break;
 			}
 			vf_io_plan(VF_IO_FULL, 0, VF_IO_FULL, 0, 0);
